@@ -54,6 +54,13 @@ def strip_all(t):
 
 def is_area_field(t, name):
     t = strip_all(t)
+    if name == "length" and t[0] == "len" and len(t) == 2 and isinstance(t[1], tuple):
+        # data.len() of the area: its length (the invariant length == data.len() is C08.invariant's obligation)
+        d_ = strip_all(t[1])
+        while d_[0] in ("deref", "w") and isinstance(d_[1], tuple):
+            d_ = d_[1]
+        if d_[0] == "field" and d_[2] == "data":
+            return is_area_field(("field", d_[1], "length"), "length")
     if t[0] != "field" or t[2] != name:
         return False
     b = t[1]
